@@ -2,7 +2,7 @@
    Only statements, closed by [exact lemma], with Print Assumptions beneath. *)
 From Coq Require Import String List NArith ZArith Bool.
 From J5V.lib Require Import Text Outcome GoExpr.
-From J5V.model Require Import BclLexer BclParser BclFmt BclLsp.
+From J5V.model Require Import BclLexer BclParser BclFmt BclLsp BclFmtAligned.
 From J5V.proofs Require Import BclPosProofs BclLexerProofs BclParserProofs BclTextProofs BclFmtProofs BclFmtFullProofs BclLspProofs BclLspClampProofs BclDocBytesProofs BclFmtGenProofs BclFmtGenAllProofs BclFmtDiffsIdemProofs.
 Import ListNotations.
 Local Open Scope Z_scope.
